@@ -182,8 +182,11 @@ def check_elf(e, expect_type=None, execstack=False, script=False):
             continue
         if not is_pow2(g.align) and g.align not in (0, 1):
             bad(t + "-align-pow2", f"p_align not a power of two: {g}")
-        elif g.align > 1 and g.memsz and g.vaddr % g.align != 0 and t != "GNU_RELRO":
-            bad("tls-start-misaligned" if t == "TLS" else t + "-align", f"p_vaddr not a multiple of p_align: {g}")
+        elif t == "TLS" and g.align > 1 and g.memsz and g.vaddr % g.align != 0:
+            bad("tls-start-misaligned", f"p_vaddr not a multiple of p_align: {g}")
+        elif t not in ("TLS", "GNU_RELRO") and g.align > 1 and g.memsz and (g.vaddr - g.offset) % g.align != 0:
+            # gABI: p_vaddr = p_offset (mod p_align); a PT_NOTE over two notes of different alignment starts at the less aligned one
+            bad(t + "-align", f"p_vaddr is not congruent to p_offset modulo p_align: {g}")
         in_load(g, t)
     for t, secname in (("DYNAMIC", ".dynamic"), ("INTERP", ".interp"), ("GNU_EH_FRAME", ".eh_frame_hdr"), ("GNU_PROPERTY", ".note.gnu.property"),
                        ("GNU_SFRAME", ".sframe")):
